@@ -319,7 +319,12 @@ pub fn run_batch(
                     *a.known.entry(k.clone()).or_insert(0) += 1;
                 }
                 let vh = out.violation.as_ref().map(|v| fnv(v.signature.as_bytes())).unwrap_or(0);
-                a.per_run.push((idx, out.fingerprint ^ vh));
+                // digest of everything observable about the run (determinism self-test)
+                let mut ch = fnv_mix(out.steps, out.sim_time_ms);
+                for (k, v) in &out.counters {
+                    ch = fnv_mix(ch ^ fnv(k.as_bytes()), *v);
+                }
+                a.per_run.push((idx, out.fingerprint ^ vh ^ ch.rotate_left(17) ^ fnv_mix(rec.len() as u64, rec.iter().fold(0u64, |h, x| fnv_mix(h, *x as u64)))));
                 if let Some(e) = out.harness_error {
                     a.herr.push((idx, e));
                 }
